@@ -134,6 +134,41 @@ def foreign_setting(ctx):
                    bounds={'context': tmpl, 'settings': settings})
 
 
+PROBE = 'Enum pe {\n  one\n}\nTable probe {\n  q int [ref: > probe.q]\n}\n'
+
+
+def no_leak(element):
+    """a document that fails after some complete elements, then a valid document: nothing of the rejected one is in the result"""
+    from harness.common import Harness, IntRange
+    from harness import docs
+    text = T.ELEMENTS[element]
+    gaps = [g[0] for g in _gaps(text)]
+    # fault positions: the last token boundaries of the document (everything before them has been matched) and its very end
+    cand = sorted(set(gaps[-6:] + [len(text)]))[-4:]
+    want = content(docs.parse(PROBE))
+
+    def body(a):
+        p = cand[a['pos']]
+        bad = text[:p] + chr(a['g0']) + text[p:]
+        try:
+            docs.parse(bad)
+            return ''           # accepted: judged by the insertion family
+        except Exception:
+            pass
+        reached()
+        try:
+            got = content(docs.parse(PROBE))
+        except Exception:
+            return 'a valid document was rejected after a rejected one'
+        if got != want:
+            return 'elements of a rejected document leaked into the result of a later parse'
+        return ''
+
+    return Harness(body, [('pos', IntRange(0, len(cand) - 1)), ('g0', GARBAGE0)],
+                   describe=lambda a: {'rejected_document': text[:cand[a['pos']]] + chr(a['g0']) + text[cand[a['pos']]:], 'then': PROBE},
+                   bounds={'element': element, 'positions': cand, 'family': 'no leak'})
+
+
 def substitution(element, family, batch, size=4):
     text = T.ELEMENTS[element]
     if family == 'struct':
@@ -220,6 +255,8 @@ def instances(tier):
                             'params': {'element': element, 'family': fam, 'batch': b}, 'timeout': T1, 'native_limit': 60})
     for ctx in range(len(FOREIGN)):
         out.append({'name': f'foreign_setting/{ctx}', 'factory': 'foreign_setting', 'params': {'ctx': ctx}, 'timeout': T1, 'native_limit': 20})
+    for element in (('refs', 'group') if quick else T.ELEMENTS):
+        out.append({'name': f'no_leak/{element}', 'factory': 'no_leak', 'params': {'element': element}, 'timeout': T1, 'native_limit': 60})
     for element in ('refs', 'table'):
         out.append({'name': f'opgrow/{element}', 'factory': 'operator_growth', 'params': {'element': element}, 'timeout': T1, 'native_limit': 60})
     if quick:
